@@ -389,6 +389,11 @@ def gen_cases(ctx):
     opts = ["b", "B", "h", "H", "i", "I", "l", "L", "j", "J", "T", "f", "d", "n", "i3", "I7", "i16", "i17", "i0", "x", "X", "Xi4", "Xh", "Xd", " ", "<", ">", "=", "!", "!2", "!4", "!8", "!16", "!3", "!17", "c3", "c", "c0", "s", "z", "s4", "q", "Xz", "X<"]
     for _ in range(ctx.scale(500, 6000)):
         add("pack", "packsize %s" % X("".join(rng.choice(opts) for _ in range(rng.randint(0, 5)))))
+    # the number reader at Lua's limits (numbers <= 2147483639 = the largest getnum reads, total <= INT_MAX: beyond
+    # them Lua refuses and the port, which has no such caps, does not - outside the property, see UNPROVED)
+    for f in ["c2147483639", "c2147483638x", "c2147483632i7", "c0000000012", "c214748364c9", "!0008i4", "i016", "I0000000001",
+              "!00016 i1 i016", "c1073741823c1073741823x", "c99 X i8", "s016", "c2147483639 !8 Xj"]:
+        add("pack", "packsize %s" % X(f))
     for k, fmt in enumerate(UNPACK_FORMATS, 1):
         m = re.match(r"^[<>]([iI])(\d+)$", fmt)
         datas = []
@@ -777,6 +782,8 @@ UNPROVED = [
     "string.format / stringbuilder writef / strprintf float conversions: not modelled, differential only",
     "float math (floor/ceil/fmod/abs/max/min on floats): differential only (the two-argument max/min order defect is modelled abstractly)",
     "pattern matcher: no theorem that the model's fuel (match_fuel) always suffices (MFuel was never observed in the correspondence), and no theorem that every subject/pattern index read is in bounds except the modelled %f case (AddressSanitizer stream only)",
-    "utf8.len / utf8.offset / utf8.codes loops, strpack option parser (alignment, packsize), string.find plain search, string.byte/char varargs: differential only",
+    "string.pack / string.unpack drivers around the proved pieces (option parser = C13_packsize_eq_lua, integer codec = C13_pack_int_eq_lua): buffer handling, strings 's' 'z' 'c', floats: differential only",
+    "string.packsize / string.pack accept more than Lua: the extension option 't' (isize) and sizes above Lua's caps (a number above 2147483639 is cut by lstrlib.c's getnum and the rest is an 'invalid format option'; a total above INT_MAX is 'format result too large'; the port has neither cap: packsize('c2147483647') = 2147483647, packsize('c2147483639c9') = 2147483648; model and spec reproduce both sides); C13_packsize_eq_lua is one direction (Lua returns a size => same size) and the generators stay below the cap",
+    "utf8.codes as an iterator protocol (the step function is proved: C13_utf8codes_step_eq_lua), string.find plain search, string.byte/char varargs: differential only",
     "gmatch with captures limit (MAX_CAPTURES = 8) and position captures ('not supported yet' asserts): the port stops; counted as port_undefined_where_lua_defined",
 ]
